@@ -63,6 +63,8 @@ ASSUMPTIONS = ["one stop trigger per run (a second cancellation of operator() wh
 
 F3_SIG = {"site": "orchestration.orchestrator", "shape": "ensemble task ended with an exception while the operator keeps running"}
 
+DK_SIG = {"site": "daemons.daemon_killer",
+          "shape": "daemon killer fails (running_daemons changed size during iteration) while spawning the exit stoppers"}
 ORPHAN_SIG = {"site": "scanning.scan_resources",
               "shape": "discovery requests by orphaned as_completed children after the observer task ended, concurrent with the cleanup activity"}
 
@@ -169,7 +171,7 @@ def abstract(obs: dict) -> list[list]:
         if kind == "stopperBegin":
             if "EXITING" in a[1] and not killer_stopping:
                 killer_stopping = True
-                put("rootStopping", "daemonKiller", False)
+                put("rootStopping", "daemonKiller", root_end.get("daemonKiller") == "failed")
             continue
         if kind in ("hungTask", "hungEnd"):
             if a[0] == "other:stop-flag waiter":
@@ -364,6 +366,17 @@ def oracle(sc: dict, obs: dict) -> tuple[list[tuple[str, dict]], dict]:
         if f[0] < end_pos:
             trig.append((f[0], f[1], "failure"))
     trig.sort()
+    # finding C20-F4: the daemon killer crashes in its own `finally:` during the shutdown
+    dk_failed = [f for f in failures if f[2] == "root:daemonKiller" and f[3] == "RuntimeError" and trig and f[0] > trig[0][0]
+                 and any(log[i][1] == "stopperBegin" for i in range(trig[0][0], f[0]))]
+    if dk_failed:
+        running_at = sum(1 for i in range(dk_failed[0][0]) if log[i][1] == "hBegin" and log[i][2] == "daemon") - \
+            sum(1 for i in range(dk_failed[0][0]) if log[i][1] == "hEnd" and log[i][2] == "daemon")
+        bad.append((f"daemon killer ended with RuntimeError at t={dk_failed[0][1]} while stopping the daemons after a {trig[0][2]} "
+                    f"({running_at} daemon(s) still running, no exit stopper for the rest); operator() outcome: {obs.get('returned')}",
+                    DK_SIG))
+        failures = [f for f in failures if f not in dk_failed]
+    facts["daemon_killer_crashed"] = bool(dk_failed)
     facts["failures"] = [f[2] + ":" + str(f[3]) for f in failures]
     facts["trigger"] = trig[0][2] if trig else None
 
@@ -411,6 +424,8 @@ def oracle(sc: dict, obs: dict) -> tuple[list[tuple[str, dict]], dict]:
             want = {"done"}
         if not trig:
             fail("running.run_tasks", "operator() returned although nothing failed and no stop was requested", f"{ret}")
+        elif dk_failed:
+            pass        # the outcome is the crash of the daemon killer or of a stopper it left behind (same finding)
         elif ret["how"] not in want:
             fail("running.run_tasks", "operator() outcome does not re-raise the failure / reflect the stop request",
                  f"outcome {ret}, triggers {kinds}, failures {facts['failures']}, startup_failed={startup_failed}, "
@@ -480,7 +495,7 @@ def oracle(sc: dict, obs: dict) -> tuple[list[tuple[str, dict]], dict]:
                 (h["daemon"].get("mode") in ("cancel", "exit") and (h.get("opts") or {}).get("cancellation_timeout") is not None))}
             running_coop = sorted(d for d in running_d if d[0] in coop)
             facts["abandoned_daemons_at_cleanup"] = sorted(d for d in running_d if d[0] not in coop)
-            if running_coop:
+            if running_coop and not dk_failed:
                 fail("daemons.daemon_killer", "cleanup activity began while a cooperative daemon was still running",
                      f"cleanup began at t={log[c0][0]} while daemons {running_coop} were still running")
     return bad, facts
